@@ -160,7 +160,7 @@ def sieveLoop (sieve : Array Nat) (maxI : Nat) (body : Nat → FL → FL) : Nat 
 
 /-- LOOP_ON_SIEVE_BEGIN (prime, start, stop, 0, sieve) body LOOP_ON_SIEVE_END -/
 def loopOnSieveArr (sieve : Array Nat) (start stop : Nat) (body : Nat → FL → FL) (st : FL) : FL :=
-  sieveLoop sieve stop body (stop + 2 - start) (1 <<< (start % 64)) (start / 64) start st
+  sieveLoop sieve stop body (stop - start + 2) (1 <<< (start % 64)) (start / 64) start st
 
 
 /-! ## The sieve's users, reading the bit array (same statements as the models of Mpir/Model/Numth.lean, which
